@@ -30,7 +30,18 @@ PropArg(ev) == /\ Shaped(ev.m, ev.rows, ev.cols) /\ ev.rows >= 1 /\ ev.cols >= 1
 ImplArg(ev) == PropOnly \/ LastArgExt(ev.m, ev.rows, ev.cols, ev.row + 1, ev.col + 1, ev.max = 1)
 TArgExt == l <= Len(Tr) /\ Ev.e = "ArgExt" /\ Step /\ PropArg(Ev) /\ ImplArg(Ev)
 
-TNext == TReset \/ TSort \/ TArgExt
+(* K3 ledger: a statistic that does not depend on the location of the data (variance, standard deviation, covariance) was      *)
+(* computed again on columns moved by `off` units (|mean| / spread = off / sp, 1e5 .. 5e5) - the harness logs the largest           *)
+(* relative residual against the exact value in units of 1e-12.  The tolerance is a function of what is logged: any two-pass /      *)
+(* updating algorithm keeps n eps + n^2 eps^2 cond^2 (far below 1e-12 here); a one-pass sum-of-squares formula loses eps cond^2     *)
+(* (1e-6 .. 1e-4 here).  LocTol sits between them and grows with the conditioning: 1e-10 + n^2 (cond / 1024)^2 / 200 * 1e-12.        *)
+LocCondK(ev) == (ev.off \div ev.sp) \div 1024
+LocTol(ev) == 100 + (ev.n * ev.n * LocCondK(ev) * LocCondK(ev)) \div 200
+PropLoc(ev) == /\ ev.n \in 2..100 /\ ev.sp \in 1..1000 /\ ev.off \in 1..1048576      \* inside the class the tolerance was derived for
+               /\ ev.res >= 0 /\ ev.res <= LocTol(ev)
+TLoc == l <= Len(Tr) /\ Ev.e = "Loc" /\ Step /\ PropLoc(Ev)
+
+TNext == TReset \/ TSort \/ TArgExt \/ TLoc
 TSpec == TInit /\ [][TNext]_tvars
 TraceAccepted == Accepted
 Diag == ShowCursor(l)
